@@ -51,10 +51,7 @@ func zzC09NUptake(n, legum int) {
 	}
 	vAssert("C09.nuptake.total_not_negative", SUMPE >= 0)
 	if g.LEGUM {
-		// not asserted: NFIX >= 0. With mass flow and diffusion supplies that are free per layer the solver
-		// finds SUMPE > DTGESN (a layer with negative diffusion is clamped to 0, the others keep their
-		// enlarged shares), i.e. a slightly negative fixation; C09 does not speak about fixation and the
-		// reachability of such supplies from the diffusion formula is not established (DESIGN A3 C09).
+		// the sign of the fixation is decided under C07 (zzC07Fixation; defect found there and repaired, fix 9131d8e)
 		vAssert("C09.nuptake.fixation_at_most_demand", g.NFIX <= 0.74*DTGESN+1e-12)
 	} else {
 		vAssert("C09.nuptake.no_fixation_without_legume", g.NFIX == 0 && g.NFIXSUM == nfixOld)
@@ -79,3 +76,4 @@ func vMaxF(a, b float64) float64 {
 	}
 	return b
 }
+
